@@ -190,11 +190,12 @@ func c07Parse(w *core.W, text string, cfg c07Cfg, kind string, files fstest.MapF
 						maxLine = n
 					}
 				}
-				if line < 0 || line > maxLine && !strings.Contains(up, "$GENERATE") {
+				// (a bad origin handed to NewZoneParser is reported before any text is read: no position)
+				if line < 1 && !strings.Contains(msg, "bad initial origin name") || line > maxLine && !strings.Contains(up, "$GENERATE") {
 					w.Violation("C07/error-line-out-of-range/"+kind, fmt.Sprintf("error reports line %d, the text has %d lines: %s", line, maxLine-1, cutS(msg)), wit)
 				}
 			}
-			if cfg.file != "" && !strings.Contains(msg, filepath.Base(cfg.file)) && len(files) == 0 {
+			if cfg.file != "" && !strings.Contains(msg, filepath.Base(cfg.file)) && len(files) == 0 && !(cfg.includes && strings.Contains(up, "$INCLUDE")) {
 				w.Violation("C07/error-without-file/"+kind, fmt.Sprintf("file %q given but the error does not name it: %s", cfg.file, cutS(msg)), wit)
 			}
 		}
@@ -337,6 +338,55 @@ func c07Case(w *core.W, j int) {
 	}
 }
 
+// c07Prefixes: for one record type, the text of a plain record of that type cut off after every
+// octet (with and without a final newline) - the RDATA ends early at the end of the input - and
+// continued with surplus tokens; plus RDATA given to the types that have no presentation format.
+func c07Prefixes(w *core.W, j int) {
+	ls := textLayouts()
+	cfg := c07Cfg{failAt: -1, file: c07Canary + "/zone.db"}
+	if j >= len(ls) {
+		// mnemonics of every known type followed by arbitrary tokens
+		k := 0
+		for t, name := range dns.TypeToString {
+			k++
+			if k%(1+0) < 0 || int(t)%4 != (j-len(ls))%4 {
+				continue
+			}
+			for _, rd := range []string{"", "1 2 3", "\"a\" \"b\"", "\\# 0", "\\# 2 0001", "\\# 2 00", "host.example.", "1 2 3 4 5 6 7 8 9 10 11 12 13 14", "\"\"", "( )", "1 ( 2"} {
+				c07Parse(w, "own.example. 60 IN "+name+" "+rd, cfg, "typed-tokens/"+name, nil)
+				c07Parse(w, "own.example. 60 IN "+name+" "+rd+"\nnext.example. 60 IN A 192.0.2.1\n", cfg, "typed-tokens/"+name, nil)
+			}
+		}
+		return
+	}
+	l := ls[j]
+	g := model.NewGen(w.Rng(j))
+	g.NoHuge = true
+	g.Plain = true
+	g.MaxOpaque = 24
+	r := c05Base(g, l)
+	rr, _, err := dns.UnpackRR(r.Wire(), 0)
+	if err != nil {
+		return
+	}
+	line := rr.String()
+	w.Cover("prefix_type", l.Name)
+	kind := "prefix/" + l.Name
+	for p := 0; p <= len(line); p++ {
+		c07Parse(w, line[:p], cfg, kind, nil)
+		c07Parse(w, line[:p]+"\n", cfg, kind, nil)
+		if p < len(line) && (line[p] == ' ' || line[p] == '\t') {
+			c07Parse(w, line[:p]+" (", cfg, kind, nil)
+			c07Parse(w, line[:p]+" \"", cfg, kind, nil)
+			c07Parse(w, line[:p]+" \\", cfg, kind, nil)
+		}
+	}
+	for _, extra := range []string{" extra", " \"extra\"", " 1", " ( extra )", " \\# 1 00", " ;c\n extra"} {
+		c07Parse(w, line+extra, cfg, "surplus/"+l.Name, nil)
+		c07Parse(w, line+extra+"\nnext.example. 60 IN A 192.0.2.1\n", cfg, "surplus/"+l.Name, nil)
+	}
+}
+
 func c07Crafted(w *core.W, j int) {
 	r := w.Rng(j)
 	cfg := c07Cfgs(j, r)
@@ -449,11 +499,12 @@ func init() {
 		section{"crafted", tiered(144, 720), c07Crafted},
 		section{"broken-include", tiered(2, 4), c07Broken},
 		section{"mutations", tiered(12000, 400000), c07Case},
+		section{"prefixes", func(string) int { return len(textLayouts()) + 4 }, c07Prefixes},
 	)
 	core.Register(&core.Monitor{
 		ID: "C07", Level: "exploration", Plan: plan, Run: run, Terminates: true, CaseTimeout: 240e9, MaxParallel: 16,
 		Rule: "mutations (byte/token deletion, duplication, transposition, hostile octets, directive soup, truncation) of zone renderings with $GENERATE/$INCLUDE, token soup, 36 crafted texts (100 KiB tokens/comments/strings, unterminated quote/parenthesis/escape, NUL, CRLF, $GENERATE at and over 65536 steps, int64-overflowing ranges, nested $GENERATE, bad modifiers, $INCLUDE with absolute/relative/.. paths, self- and mutually including files, an included file whose reads fail), " +
-			"each with a read error injected at a chosen offset, x {includes off/on} x {no FS / recording FS} x 5 origins x default TTL; oracle: no panic/hang, nothing returned and Err() stable after parsing stops, errors carry line:col (and the file), <= 65536 records per $GENERATE, nested $GENERATE rejected, " +
+			"every octet-prefix of a plain record line of every type (RDATA ending early at end of input, open parenthesis/quote/backslash after each token), surplus tokens after complete RDATA, arbitrary tokens after every type mnemonic incl. types without presentation format; each with a read error injected at a chosen offset, x {includes off/on} x {no FS / recording FS} x 5 origins x default TTL; oracle: no panic/hang, nothing returned and Err() stable after parsing stops, errors carry line:col (and the file), <= 65536 records per $GENERATE, nested $GENERATE rejected, " +
 			"zero Open calls on the recording FS and zero openat(2) under the canary directory in the strace log of the worker while includes are disabled, <= 8 opens for self-including files, TotalAlloc delta within 4 KiB/octet + per-record allowance; non-trivial = distinct accepted text",
 		Assumptions: []string{"the worker runs under strace -f -e trace=open,openat (seccomp-bpf); the canary directory does not exist"},
 		MinObserved: []string{"texts", "errors", "accepted", "self_include_cases", "broken_include_cases", "strace_openat_lines"},
